@@ -69,7 +69,9 @@ def run(ctx, only_variants=None):
             continue
         # closures of the body may build the error (ok_or_else(|| Error::V))
         sites = []
-        for bb in [b] + lib.closures_of(body_id):
+        from ..owners import for_crate
+        helpers = [h for h in for_crate(lib).cluster(body_id) if h is not b]
+        for bb in [b] + [h for h in helpers]:
             for i, s in aggregates(bb, ERR, variant):
                 sites.append((bb, i, s))
         if len(sites) < count:
@@ -79,7 +81,20 @@ def run(ctx, only_variants=None):
         bad = False
         for bb, i, s in sites:
             if bb is not b:
-                continue      # built in a closure (lazily, e.g. ok_or_else): presence is the obligation
+                if "{closure" in bb.id:
+                    continue      # built in a closure (lazily, e.g. ok_or_else): presence is the obligation
+                # built in a helper extracted from this function: the helper's own test must guard it, and the function
+                # must pass through the helper on every path to a success value
+                sw, _, leak = judge_guard(bb, i)
+                gates = {c.bb for c in b.calls if c.callee == bb.id}
+                succs = success_blocks(b)
+                if sw is None or leak:
+                    res.bad(k, "Error::%s in helper %s is not guarded by a test" % (variant, bb.id), bb.where(s.get("line")))
+                    bad = True
+                elif len([x for x in succs if x in b.reachable(0, avoid=gates)]) > undom_ok:
+                    res.bad(k, "%s reaches a success value without calling %s, which holds the %s check" % (body_id, bb.id, variant), b.where())
+                    bad = True
+                continue
             sw, undominated, leak = judge_guard(b, i)
             if sw is None:
                 res.bad(k, "Error::%s in %s is not guarded by a test (unconditional or unreachable)" % (variant, body_id), b.where(s.get("line")))
@@ -109,11 +124,15 @@ def run_execerror(ctx):
         for v in sorted(vs - tv):
             res.bad("execerror:variant:" + v, "ExecError::%s is a run-time failure the documented list does not contain" % v, "src/errors/exec_error.rs")
     found = {}
+    from ..owners import for_crate
+    own = for_crate(lib)
     for b in lib.bodies.values():
         if b.impl_trait in ("std::fmt::Debug", "std::clone::Clone", "std::cmp::PartialEq", "std::fmt::Display"):
             continue
         for i, s in aggregates(b, XERR):
-            found.setdefault("%s|%s" % (b.id, s["rv"]["variant"]), []).append((b, i, s))
+            # an error raised in a new helper counts for the reviewed function(s) that call the helper
+            for o in sorted(own.of(b.id)):
+                found.setdefault("%s|%s" % (o, s["rv"]["variant"]), []).append((b, i, s))
     for key, sites in found.items():
         k = "execerror:" + key
         b, i, s = sites[0]
